@@ -16,14 +16,19 @@ def pruneDep (d : BDep) : BDep := { d with type := .none }
 def depCodeTargets (deps : List BDep) : List Spec :=
   deps.filterMap fun d => d.code.okSpec?
 
+/-- the source map is a code-side dependency: a code-only build loads it too (repair of F16) -/
+def smTarget : Option Res → List Spec
+  | some (.ok s _) => [s]
+  | _ => []
+
 /-- what visiting a module slot does to it -/
 def pruneSlot : BSlot → BSlot
-  | .module (.js mt deps _) => .module (.js mt (deps.map pruneDep) none)
+  | .module (.js mt deps _ sm) => .module (.js mt (deps.map pruneDep) none sm)
   | .module (.wasm deps) => .module (.wasm (deps.map pruneDep))
   | sl => sl
 
 def slotTargets : BSlot → List Spec
-  | .module (.js _ deps _) => depCodeTargets deps
+  | .module (.js _ deps _ sm) => smTarget sm ++ depCodeTargets deps
   | .module (.wasm deps) => depCodeTargets deps
   | _ => []
 
